@@ -256,6 +256,14 @@ class ScfInv:
             va, vb = np.asarray(a.Vloc), np.asarray(b.Vloc)
             d = dict(psp=(str(a.psp)[-10:], str(b.psp)[-10:]), pot=(a.pot, b.pot), Vloc_diff=float(np.abs(va - vb).max()) if va.shape == vb.shape else "shape")
             bad = a.psp != b.psp or a.pot != b.pot or va.shape != vb.shape or np.abs(va - vb).max() > 1e-10
+            if a.pot == "gth" and b.pot == "gth":
+                ba, bb = [np.asarray(x) for x in a.gth.betaNL], [np.asarray(x) for x in b.gth.betaNL]
+                if len(ba) != len(bb) or any(x.shape != y.shape for x, y in zip(ba, bb)):
+                    d["betaNL"] = "shape"
+                    bad = True
+                else:
+                    d["betaNL_diff"] = float(max((np.abs(x - y).max() if x.size else 0.0) for x, y in zip(ba, bb)))
+                    bad = bad or d["betaNL_diff"] > 1e-10
             return bad, d
 
         results = {}
@@ -284,6 +292,10 @@ class ScfInv:
             s1.recenter()
             at = Atoms("He", np.asarray(s1.atoms.pos), ecut=5, a=8)
             results["recenter with a custom pseudopotential path"] = same(s1, SCF(at, xc="lda,pw", pot=custom))
+            s2 = SCF(ne, xc="lda,pw")
+            s2.recenter()
+            at2 = Atoms("Ne", np.asarray(s2.atoms.pos), ecut=5, a=8)
+            results["recenter of an atom with non-local projectors"] = same(s2, SCF(at2, xc="lda,pw"))
         bad = {k: v[1] for k, v in results.items() if v[0]}
         return bool(bad), dict(check="object after the member call vs a freshly constructed SCF with the same final inputs", differing=bad)
 
